@@ -550,8 +550,13 @@ pub fn body_rule(method: &str, status: u16, resp_http10: bool, cl: ClClass, te: 
         || status == 204
         || status == 304;
     if bodyless {
-        if cl == ClClass::NonNumeric || cl == ClClass::Ambiguous {
-            return FrameExp::DontCare("bodyless response with a non-numeric Content-Length (error or no body)");
+        // "A non-numeric Content-Length is an error" is stated without exception, and the statement is
+        // what is checked here (RFC 9112 would let the no-body rules win; the property text does not).
+        if cl == ClClass::NonNumeric {
+            return FrameExp::Error("non-numeric-content-length-on-bodyless");
+        }
+        if cl == ClClass::Ambiguous {
+            return FrameExp::DontCare("bodyless response with a +N Content-Length");
         }
         let why = if method == "HEAD" {
             "HEAD"
@@ -572,7 +577,7 @@ pub fn body_rule(method: &str, status: u16, resp_http10: bool, cl: ClClass, te: 
     let is_3xx = (300..400).contains(&status);
     if te == TeClass::Chunked && !resp_http10 {
         if cl == ClClass::NonNumeric {
-            return FrameExp::DontCare("chunked together with a non-numeric Content-Length");
+            return FrameExp::Error("non-numeric-content-length-with-chunked");
         }
         return FrameExp::Is(Framing::Chunked, if cl == ClClass::Absent { "chunked" } else { "chunked-over-length" });
     }
